@@ -965,6 +965,26 @@ def splice_function(ft, directives, security=False):
             ed.replace(src.t(lcb).pos, src.t(lcb).end, '} } }')
             fired.append(('R3', src.line_of(start), 'for -> loop/next (it_%d)' % k))
 
+    # `@@name_for k <name>` (added for unit `repair_decision`; annotation only): names Verus' ghost
+    # iterator of the k-th loop, a native `for`:  `for PAT in EXPR` -> `for PAT in <name>: EXPR`
+    for d in directives:
+        if d.kind == 'name_for':
+            k, (kw, lab, lob, lcb, kind) = loop_k(d)
+            if kind != 'for' or len(d.arg.split()) < 2:
+                raise Undecided('lost-anchor', 'name_for: loop %d of %s is not a for loop / no name given' % (k, ft.name))
+            j = kw + 1
+            in_si = None
+            while j < lob:
+                if src.s(j) in rscan.OPEN:
+                    j = src.match[j] + 1; continue
+                if src.s(j) == 'in':
+                    in_si = j; break
+                j += 1
+            if in_si is None:
+                raise Undecided('unsupported-construct', 'for without in')
+            ed.insert(src.t(in_si + 1).pos, d.arg.split()[1] + ': ')
+            fired.append(('note', src.line_of(src.t(kw).pos), 'ghost iterator of for-loop %d named %s' % (k, d.arg.split()[1])))
+
     per_loop = {}
     loop_labels = {}
     for d in directives:
